@@ -61,12 +61,13 @@ impl BasePath {
     fn relative_to_full_path(&self, url: &str) -> Url {
         Url::parse(&self.base_path)
             .unwrap()
-            .join(&format!("{}.md", url.trim_end_matches(".md")))
+            .join(&format!("{}.md", model::strip_md(url)))
             .expect("to work")
     }
 
     fn name_to_url(&self, key: &str) -> Url {
-        Url::from_file_path(self.dir.join(format!("{}.md", key))).expect("to work")
+        Url::from_file_path(self.dir.join(format!("{}.md", model::strip_md(key))))
+            .expect("to work")
     }
 
     fn url_to_key(&self, url: &Url) -> Key {
